@@ -82,7 +82,7 @@ inductive ErrKind where
   | expectedHex | badHex | astralRange | classEscape | unexpectedEscaping
   | fvInSet | closingBracket | unexpectedDash | doubleDash | rangeEnd | invalidRange
   | emptySet | overlap | complementAstral
-  | groupDirective | groupClosing | quantWithoutTerm | quantNoBounds | quantMinMax
+  | groupDirective | groupClosing | quantWithoutTerm | quantNoBounds | quantTooLarge | quantMinMax
   | quantClosing | symbolQuantifier | expectedTerm | unconsumed
   deriving DecidableEq, Repr, Inhabited
 
@@ -208,17 +208,26 @@ def rangeReversed (start : Chr) : Option Chr → Bool
   | some e => decide (start.code > e.code)
   | none => false
 
+/-- `elif not at_first_member and cursor.try_literal("]")`: the loop of
+`_parse_ranges_and_closing` stops at a `]` unless it is the first member of the set
+(`[]a]`, `[^]a]`: Python's `re` reads a `]` in that position as a literal). -/
+def closesSet (first : Bool) : List Tok → Bool
+  | .ch 93 :: _ => !first
+  | _ => false
+
 /-- The `while True` loop of `_parse_ranges_and_closing`: the ranges with the number of tokens
-that remained at their start (`cursor_by_range`), and the tokens after the closing `]`. -/
-def parseRangesLoop : Nat → List Tok → Res (List (Rng × Nat) × List Tok)
-  | 0, _ => .crash .fuel
-  | g + 1, ts =>
+that remained at their start (`cursor_by_range`), and the tokens after the closing `]`.
+`first` is `at_first_member`: nothing has been read into the set yet. -/
+def parseRangesLoop : Bool → Nat → List Tok → Res (List (Rng × Nat) × List Tok)
+  | _, 0, _ => .crash .fuel
+  | first, g + 1, ts =>
     match ts with
     | [] => .err .closingBracket 0
     | .ch 45 :: .ch 93 :: r => .ok ([(⟨⟨45, false⟩, none⟩, ts.length)], r)
-    | .ch 93 :: r => .ok ([], r)
     | .ch 45 :: _ => .err .unexpectedDash ts.length
     | _ =>
+      if closesSet first ts then .ok ([], ts.tail)
+      else
       match parseRangeChar ts with
       | .err k n => .err k n
       | .crash s => .crash s
@@ -229,7 +238,7 @@ def parseRangesLoop : Nat → List Tok → Res (List (Rng × Nat) × List Tok)
         | .ok (e, ts2) =>
           if rangeReversed start e then .err .invalidRange ts2.length
           else
-            match parseRangesLoop g ts2 with
+            match parseRangesLoop false g ts2 with
             | .ok (rs, r) => .ok ((⟨start, e⟩, ts.length) :: rs, r)
             | .err k n => .err k n
             | .crash s => .crash s
@@ -280,7 +289,7 @@ def checkOverlap (all : List (Rng × Nat)) (r : List Tok) : Res (List Rng × Lis
 
 /-- `_parse_ranges_and_closing`; `ts` are the tokens after `[` or `[^`. -/
 def parseRanges (ts : List Tok) : Res (List Rng × List Tok) :=
-  match parseRangesLoop ((afterPrefixDash ts).length + 1) (afterPrefixDash ts) with
+  match parseRangesLoop (prefixDash ts).isEmpty ((afterPrefixDash ts).length + 1) (afterPrefixDash ts) with
   | .err k n => .err k n
   | .crash s => .crash s
   | .ok (items, r) =>
@@ -330,6 +339,15 @@ def closeQuant (mn0 : Nat) (mx' : Option Nat) (r3 : List Tok) : Res (Option Quan
   | .ch 125 :: r4 => mkQuant false mn0 mx' r4
   | _ => .err .quantClosing r3.length
 
+/-- `_TOO_LARGE_REPETITION_COUNT` (`_sre.MAXREPEAT`): Python's `re` refuses the counts from
+`2**32 - 1` on with an `OverflowError` -/
+def tooLargeCount : Nat := 4294967295
+
+/-- `count is not None and count >= _TOO_LARGE_REPETITION_COUNT` -/
+def countTooLarge : Option Nat → Bool
+  | some n => decide (n ≥ tooLargeCount)
+  | none => false
+
 /-- The quantifier part of the loop body of `_parse_concatenation`. -/
 def parseQuant (ts : List Tok) : Res (Option Quant × List Tok) :=
   match ts with
@@ -343,6 +361,7 @@ def parseQuant (ts : List Tok) : Res (Option Quant × List Tok) :=
     match quantBounds r with
     | (mn, comma, mx, r3) =>
       if mn = none ∧ mx = none then .err .quantNoBounds r3.length
+      else if countTooLarge mn || countTooLarge mx then .err .quantTooLarge r3.length
       else
         let mx' := if comma then mx else mn
         let mn0 := mn.getD 0
